@@ -29,9 +29,11 @@ Definition string_integer (s : str) : option Z :=
   let t := trim s in
   let signed :=
     match t with
-    | 43 :: w => parse_digits w                        (* '+' *)
-    | 45 :: w => option_map Z.opp (parse_digits w)     (* '-' *)
-    | _ => parse_digits t
+    | b :: w =>
+        if b =? 43 then parse_digits w                          (* '+' *)
+        else if b =? 45 then option_map Z.opp (parse_digits w)  (* '-' *)
+        else parse_digits t
+    | [] => None
     end in
   match signed with
   | Some z => if in_int_range z then Some z else None
